@@ -543,6 +543,33 @@ def case_rng(pid, seed, icase):
     return random.Random(f"{pid}-{seed}-{icase}")
 
 
+def _find_key(obj, key, out):
+    if isinstance(obj, dict):
+        for k, v in obj.items():
+            if k == key and isinstance(v, int):
+                out.add(v)
+            else:
+                _find_key(v, key, out)
+    elif isinstance(obj, list):
+        for v in obj:
+            _find_key(v, key, out)
+
+
+def replay_ids(ck, n):
+    """Case ids to run: all of range(n), or — with `./check Cxx --replay <file>` — only the cases named in the replay file
+    (every generated case is a function of (seed, icase), so a replay re-runs exactly those cases against the current tree)."""
+    path = os.environ.get("VERIF_REPLAY")
+    if not path:
+        return list(range(n))
+    rp = json.loads((ROOT / path).read_text() if not os.path.isabs(path) else Path(path).read_text())
+    ck.seed = int(rp.get("seed", ck.seed))
+    ck.tier = rp.get("tier", ck.tier)
+    ids = set()
+    _find_key(rp, "icase", ids)
+    log(f"[{ck.pid}] replay of {path}: seed={ck.seed} tier={ck.tier} cases={sorted(ids)[:20]}{'…' if len(ids) > 20 else ''}")
+    return sorted(ids) if ids else list(range(n))
+
+
 def load_known():
     p = ROOT / "known_findings.json"
     if not p.exists():
